@@ -102,6 +102,22 @@ def run_c13(ctx):
                 vcases.append((bytes(p2), chunked(msg), sg, "key bit"))
         vcases.append((pk, chunked(msg), sg[:63], "short sig"))
         vcases.append((pk[:31], chunked(msg), sg, "short key"))
+    # small-order public keys and small-order R with s = 0: plain Ed25519 verification accepts some of
+    # these triples (e.g. the neutral element as key and as R, for every message); the incremental
+    # verifier must agree with the direct verification whatever it says
+    small = [bytes.fromhex(h) for h in (
+        "0100000000000000000000000000000000000000000000000000000000000000",
+        "ecffffffffffffffffffffffffffffffffffffffffffffffffffffffffffff7f",
+        "0000000000000000000000000000000000000000000000000000000000000000",
+        "0000000000000000000000000000000000000000000000000000000000000080",
+        "26e8958fc2b227b045c3f489f2ef98f0d5dfac05d3c63339b13802886d53fc05",
+        "26e8958fc2b227b045c3f489f2ef98f0d5dfac05d3c63339b13802886d53fc85",
+        "c7176a703d4dd84fba3c0b760d10670f2a2053fa2c39ccc64ec7fd7792ac037a",
+        "c7176a703d4dd84fba3c0b760d10670f2a2053fa2c39ccc64ec7fd7792ac03fa")]
+    for a in small:
+        for b in small[:4]:
+            for m in (b"", b"abc", rnd(r, 1500)):
+                vcases.append((a, [m], b + bytes(32), "small-order key / R"))
     pts = vlib.run_impl(["edpoint " + rt.hx(pk) for pk, _, _, _ in vcases])
     direct = vlib.run_impl(["edverify %s %s %s" % (rt.hx(pk), rt.hx(b"".join(ch)), rt.hx(sg)) for pk, ch, sg, _ in vcases])
     ilines = ["verify %s %s %s" % (rt.hx(pk), ",".join(rt.hx(c) for c in ch), rt.hx(sg)) for pk, ch, sg, _ in vcases]
